@@ -106,6 +106,16 @@ Proof.
   intro p. rewrite H. reflexivity.
 Qed.
 
+Lemma d_c14_not_reload i x : d_c14 i = Some x -> d_c14_reload i = None.
+Proof.
+  unfold d_c14, d_c14_reload. intro H.
+  destruct i as [z|b|l]; try discriminate.
+  destruct l as [|v0 l]; try discriminate. destruct v0 as [z|b|l0]; try discriminate.
+  destruct z as [|p|p]; try discriminate. destruct p; try discriminate.
+  repeat (match goal with |- match ?l with _ => _ end = None => destruct l; try reflexivity end).
+  reflexivity.
+Qed.
+
 (* whatever orders the implementation's maps take, the set of distinct summaries it can show is the model's singleton,
    which satisfies prop_C14 and agree_C14 *)
 Lemma c14_any_order i fs ps fs' pick' :
@@ -120,7 +130,7 @@ Proof.
     apply summary_invariant; auto. exact iteration_order_id. }
   cbv zeta. split; [exact E|]. split.
   - unfold agree_C14. rewrite Hd, Hk. simpl. rewrite E. apply val_eqb_refl.
-  - unfold prop_C14, summary. destruct (load_with pick' fs'); reflexivity.
+  - unfold prop_C14, summary. rewrite (d_c14_not_reload i _ Hd). destruct (load_with pick' fs'); reflexivity.
 Qed.
 
 Lemma v_gslb_perm conf conf' : NoDup (map fst conf) -> Permutation conf conf' -> v_gslb conf = v_gslb conf'.
